@@ -263,8 +263,10 @@ def run(ctx):
         sides = [t[2], t[3]]
         rank = [s for s in sides if s[0] == "call" and s[1] == "numpy.linalg.matrix_rank"]
         other = [s for s in sides if s not in rank]
-        L = ("call", "builtins.len", (("n", "kraus_ops"),), ())
-        ok = bool(rank) and other and other[0] in (("*", (L, L)), ("**", L, ("c", 2))) and t[1] == "=="
+        isL = lambda x: x[0] == "call" and x[1] == "builtins.len" and len(x[2]) == 1  # noqa: E731  (the count of whatever holds the operators)
+        o0 = other[0] if other else None
+        ok = bool(rank) and o0 is not None and t[1] == "==" and ((o0[0] == "*" and len(o0[1]) == 2 and isL(o0[1][0]) and o0[1][0] == o0[1][1]) or
+                                                                  (o0[0] == "**" and isL(o0[1]) and o0[2] == ("c", 2)))
         ctx.ob("R-ENUM", iex, "rank compared with r*r", bool(ok), "rank({A_i^+ A_j}) == r^2" if ok else f"verdict {show(t)[:120]}")
         if rank:
             tolv = kwarg(rank[0], "tol")
@@ -285,7 +287,8 @@ def run(ctx):
     for rn, facts, t in rets:
         if rn is not None and t[0] == "c" and isinstance(t[1], bool):
             cs = [(Ne0(a), b) for a, b in flw.conds(facts)]
-            single = any(pol and c_ in (("cmp", "==", ("c", 1), L_), ("cmp", "==", L_, ("c", 1))) for c_, pol in cs)
+            isL_ = lambda x: isinstance(x, tuple) and x and x[0] == "call" and x[1] == "builtins.len" and len(x[2]) == 1  # noqa: E731
+            single = any(pol and c_[0] == "cmp" and c_[1] == "==" and ((c_[2] == ("c", 1) and isL_(c_[3])) or (c_[3] == ("c", 1) and isL_(c_[2]))) for c_, pol in cs)
             if not (t[1] is True and single):
                 badc = (rn, cs[-1][0] if cs else None)
     ctx.ob("R-PRED", iex, "no verdict bypasses the rank test (except True for a single Kraus operator)", badc is None,
@@ -327,6 +330,10 @@ def run(ctx):
             continue
         t = Np(cs[-1][0])
         r = repr(t)
+        if "builtins.len" not in r and "numpy.any" not in r:
+            # a hoisted local (num_ops = len(prob)): look at the inlined test as well
+            t = Normalizer(m, pch, inline=True)(cs[-1][0])
+            r = repr(t)
         if "numpy.any" in r and "numpy.isclose" in r and "numpy.sum" in r:
             anyc = calls_to(t, "numpy.any")[0]
             neg_ok = anyc[2] and anyc[2][0] == ("cmp", "<", ("n", "prob"), ("c", 0))
@@ -347,8 +354,23 @@ def run(ctx):
     for n in walk_no_nested(pch.node):
         if isinstance(n, ast.Call) and isinstance(n.func, ast.Attribute) and n.func.attr == "append" and n.args:
             e = Np(n.args[0])
+            if e[0] == "n" or mentions_name(e, "input_mat"):
+                continue  # (an append that collects results, not a Kraus operator)
             ok = any(isinstance(s, tuple) and s and s[0] == "call" and s[1] == "numpy.sqrt" and s[2] and s[2][0][0] == "sub" and s[2][0][1] == ("n", "prob") for s in subterms(e))
-            ctx.ob("R-COV", pch, "Kraus operator weight sqrt(p_j)", ok, "sqrt(prob[j]) * P_j" if ok else f"Kraus weight {show(e)[:60]}", n)
+            if not ok:
+                # `for weight, ... in zip(prob, ...)`: the loop variable zipped with prob is prob[j]
+                zipped = set()
+                for lp_ in walk_no_nested(pch.node):
+                    if isinstance(lp_, ast.For) and isinstance(lp_.iter, ast.Call) and getattr(lp_.iter.func, "id", "") == "zip" and isinstance(lp_.target, ast.Tuple) and any(x is n for x in ast.walk(lp_)):
+                        for tg_, src_ in zip(lp_.target.elts, lp_.iter.args):
+                            if isinstance(tg_, ast.Name) and isinstance(src_, ast.Name) and src_.id == "prob":
+                                zipped.add(tg_.id)
+                sq = [s for s in subterms(e) if isinstance(s, tuple) and s and s[0] == "call" and s[1] == "numpy.sqrt" and s[2]]
+                if any(s[2][0][0] == "n" and s[2][0][1] in zipped for s in sq):
+                    ok = True
+                elif sq:
+                    ok = None  # a square root of something this rule cannot relate to prob
+            ctx.ob("R-COV", pch, "Kraus operator weight sqrt(p_j)", ok, "sqrt(prob[j]) * P_j" if ok else f"Kraus weight {show(e)[:60]}", n, required=ok is not None)
     # enumeration of the 4^q Pauli strings: one term per probability, the index vector advanced (base 4) once per term
     Npp = Normalizer(m, pch, inline=False)
     for lp in walk_no_nested(pch.node):
@@ -363,9 +385,17 @@ def run(ctx):
                 oka = isinstance(b_.get("old_ind"), ast.Name) and b_["old_ind"].id == tgt and lim is not None and lim[0] == "*" and ("c", 4) in lim[1] and "numpy.ones" in repr(lim)
                 used = any(isinstance(x, ast.Call) and m.resolve_call(pch, x).key.endswith("pauli.pauli") and tgt in {y.id for y in ast.walk(x) if isinstance(y, ast.Name)} for x in ast.walk(lp))
                 oka = oka and used
-            ctx.ob("R-ENUM", pch, "one Pauli string per probability: index vector advanced base 4 once per term", bool(okr and oka),
-                   "ind = update_odometer(ind, 4 * ones(q)) inside the loop over all probabilities" if okr and oka else
-                   "the index vector is not advanced (or not base 4, or not used by pauli()) inside the loop: every term uses the same Pauli string", lp)
+            verdict_ = bool(okr and oka)
+            if not verdict_ and not adv:
+                # the mixed-radix counter written with the standard library: zip(prob, itertools.product(range(4), repeat=q)) -- lexicographic, one per term
+                itx = unparse(lp.iter).replace(" ", "")
+                if "itertools.product(range(4),repeat=q)" in itx and ("zip(prob," in itx or "enumerate(" in itx):
+                    verdict_ = True
+                elif "product(" in itx:
+                    verdict_ = None
+            ctx.ob("R-ENUM", pch, "one Pauli string per probability: index vector advanced base 4 once per term", verdict_,
+                   "one Pauli string per probability, in base-4 counting order" if verdict_ else
+                   "the index vector is not advanced (or not base 4, or not used by pauli()) inside the loop: every term uses the same Pauli string", lp, required=verdict_ is not None)
     ctx.notes.append("observation: pauli_channel draws from the legacy global RNG for scalar `prob` (outside C06's clauses)")
 
     # depolarizing / dephasing / reduction / choi: |psi><psi| with dagger, unnormalised
